@@ -124,24 +124,42 @@ func ulHistOp(a []string) string {
 			panic(badArg{})
 		}
 		via, epd, sht, ctx, nw, plain := f[0], aU64(f[1]), aU64(f[2]), aBool(f[3]), aBool(f[4]), aHex(f[5])
-		if epd > 255 || sht > 255 || (via != "e" && via != "n") || (via == "e" && epd != 126) {
+		switch via {
+		case "e", "n", "z", "u", "x", "b":
+		default:
+			panic(badArg{})
+		}
+		if epd > 255 || sht > 255 || ((via == "e" || via == "b") && epd != 126) {
 			panic(badArg{})
 		}
 		re, okRe := reencode(plain)
 		var res []byte
 		var err error
 		p := step(func() {
-			if via == "e" {
+			if via == "e" || via == "b" { // b: octets the plain decoder refuses (or traps on: no octets at all)
 				res, err = tglib.EncodeNasPduWithSecurity(ue, append([]byte{}, plain...), uint8(sht), ctx, nw)
 				return
 			}
 			m := nas.NewMessage()
+			switch via {
+			case "z": // no message
+				res, err = tglib.NASEncode(ue, nil, ctx, nw)
+				return
+			case "x": // a message the plain codec refuses to encode (neither a 5GMM nor a 5GSM part)
+				m.SecurityHeader = nas.SecurityHeader{ProtocolDiscriminator: uint8(epd), SecurityHeaderType: uint8(sht)}
+				res, err = tglib.NASEncode(ue, m, ctx, nw)
+				return
+			}
 			cp := append([]byte{}, plain...)
 			if e := m.PlainNasDecode(&cp); e != nil {
 				err = e
 				return
 			}
 			m.SecurityHeader = nas.SecurityHeader{ProtocolDiscriminator: uint8(epd), SecurityHeaderType: uint8(sht)}
+			if via == "u" { // no UE context
+				res, err = tglib.NASEncode(nil, m, ctx, nw)
+				return
+			}
 			res, err = tglib.NASEncode(ue, m, ctx, nw)
 		})
 		out.WriteByte(' ')
@@ -192,6 +210,8 @@ func decodeTok(ue *tglib.RanUeContext, sht uint8, pkg []byte) string {
 	return tok
 }
 
+var dlTransportSeq int
+
 func dlTransport(pkg []byte, withNas bool) *ngapType.DownlinkNASTransport {
 	m := &ngapType.DownlinkNASTransport{}
 	ie := ngapType.DownlinkNASTransportIEs{}
@@ -204,6 +224,23 @@ func dlTransport(pkg []byte, withNas bool) *ngapType.DownlinkNASTransport {
 	ie.Value.Present = ngapType.DownlinkNASTransportIEsPresentRANUENGAPID
 	ie.Value.RANUENGAPID = &ngapType.RANUENGAPID{Value: 1}
 	m.ProtocolIEs.List = append(m.ProtocolIEs.List, ie)
+	// one message in three carries the optional IEs that TS 38.413 9.2.5.2 places BEFORE the NAS-PDU (Old AMF, RAN Paging
+	// Priority): the NAS-PDU is found by its IE id, not by its position
+	dlTransportSeq++
+	if dlTransportSeq%3 != 0 {
+		ie = ngapType.DownlinkNASTransportIEs{}
+		ie.Id.Value = ngapType.ProtocolIEIDOldAMF
+		ie.Value.Present = ngapType.DownlinkNASTransportIEsPresentOldAMF
+		ie.Value.OldAMF = &ngapType.AMFName{Value: "amf-old"}
+		m.ProtocolIEs.List = append(m.ProtocolIEs.List, ie)
+		if dlTransportSeq%3 == 2 {
+			ie = ngapType.DownlinkNASTransportIEs{}
+			ie.Id.Value = ngapType.ProtocolIEIDRANPagingPriority
+			ie.Value.Present = ngapType.DownlinkNASTransportIEsPresentRANPagingPriority
+			ie.Value.RANPagingPriority = &ngapType.RANPagingPriority{Value: 5}
+			m.ProtocolIEs.List = append(m.ProtocolIEs.List, ie)
+		}
+	}
 	if withNas {
 		ie = ngapType.DownlinkNASTransportIEs{}
 		ie.Id.Value = ngapType.ProtocolIEIDNASPDU
@@ -242,6 +279,8 @@ func dlHistOp(a []string) string {
 			tok = decodeTok(ue, uint8(sht), pkg)
 		case "z":
 			tok = decodeTok(ue, uint8(sht), nil)
+		case "u": // no UE context
+			tok = decodeTok(nil, uint8(sht), pkg)
 		case "n":
 			var m *nas.Message
 			if step(func() { m = tglib.GetNasPdu(ue, dlTransport(pkg, false)) }) {
@@ -477,6 +516,11 @@ func secHistGen(e *emitter) {
 					epd = 0x2e
 				}
 			}
+			if malformed && e.rng.Intn(3) == 0 {
+				// refused calls in the middle of a history: no message, no UE context, a message the plain codec does not
+				// encode (which, under a new security context, is refused after the counters were reset)
+				via = []string{"z", "u", "x"}[e.rng.Intn(3)]
+			}
 			args = append(args, via+","+u(epd)+","+u(sht)+","+b01(ctx)+","+b01(nw)+","+hx(pool[e.rng.Intn(len(pool))]))
 		}
 		e.op("ulhist", args...)
@@ -490,6 +534,18 @@ func secHistGen(e *emitter) {
 			}
 			e.op("ulhist", args...)
 		}
+	}
+	// refused calls between ordinary ones: the counters after them (an unencodable message announced with a new context
+	// resets them before it is refused)
+	for _, pair := range algPairs[:2] {
+		args := hdr(300, 77, pair[0], pair[1], e.bytes(16), e.bytes(16))
+		p := hx(pool[e.rng.Intn(len(pool))])
+		args = append(args, "b,126,2,1,1,-", "b,126,2,1,1,ff0041", "b,126,2,0,0,00")
+		for _, st := range []string{"e,126,2,1,0,", "z,126,2,1,1,", "u,126,2,1,1,", "n,126,2,1,0,", "x,126,2,0,1,", "x,126,2,1,0,", "e,126,2,1,0,",
+			"x,126,2,1,1,", "e,126,2,1,0,", "n,126,1,1,0,"} {
+			args = append(args, st+p)
+		}
+		e.op("ulhist", args...)
 	}
 	// the counter type: boundary windows always, every one of the 2^24 values (and samples with bits 24..31 set)
 	// in the thorough tier
@@ -554,7 +610,9 @@ func secDlGen(e *emitter) {
 			}
 			if malformed && e.rng.Intn(3) == 0 {
 				// truncated / random / headerless input, absent IE, nil payload: no expectation from the specification
-				switch e.rng.Intn(5) {
+				switch e.rng.Intn(6) {
+				case 5:
+					args = append(args, "u,"+u(uint64(sht))+","+hx(refProtect(calg, ialg, kenc, kint, uint32(next), 0x7e, 2, plain))+",x,x")
 				case 0:
 					args = append(args, kind+","+u(uint64(e.rng.Intn(6)))+","+hx(e.bytes(e.rng.Intn(9)))+",x,x")
 				case 1:
@@ -612,6 +670,23 @@ func secDlGen(e *emitter) {
 			sht := uint8(1 + s%2)
 			plain := pool[e.rng.Intn(len(pool))]
 			args = append(args, "d,"+u(uint64(sht))+","+hx(refProtect(pair[0], pair[1], kenc, kint, uint32(c), 0x7e, sht, plain))+","+u(c)+","+hx(plain))
+		}
+		e.op("dlhist", args...)
+	}
+	// refused calls between ordinary ones (no payload, no UE context): the DL COUNT estimate is untouched by them
+	{
+		var kenc, kint [16]byte
+		copy(kenc[:], e.bytes(16))
+		copy(kint[:], e.bytes(16))
+		args := hdr(0, 10, 2, 2, kenc[:], kint[:])
+		plain := pool[e.rng.Intn(len(pool))]
+		for s, kind := range []string{"d", "u", "z", "d", "u", "d"} {
+			c := uint64(11 + s)
+			want := u(c) + "," + hx(plain)
+			if kind != "d" {
+				want = "x,x"
+			}
+			args = append(args, kind+",2,"+hx(refProtect(2, 2, kenc, kint, uint32(c), 0x7e, 2, plain))+","+want)
 		}
 		e.op("dlhist", args...)
 	}
